@@ -22,12 +22,13 @@ from hypothesis import HealthCheck, Phase, given, seed as hseed, settings, strat
 
 from vlib import oracles
 from vlib.campaign import Campaign, chash
+from vlib.engine_d import Schedule
 from vlib.engine_k import crash_states, recover_from
 from vlib.par import map_raw, run_shards
 from vlib.spec import core_corpus, dag_spec, features, loop_spec, syn_confluent_spec
 
 LEVEL = "fault_enumeration"
-CORPUS_SKIP = ("gate", "choice")  # gate: waits for a signal (C18); choice: winner is schedule dependent by definition
+CORPUS_SKIP = ("gate",)  # gate: waits for a signal (C18)
 
 
 def window_of(cs: dict[str, Any]) -> str:
@@ -61,13 +62,17 @@ def window_of(cs: dict[str, Any]) -> str:
 
 
 def judge_recovery(c: Campaign, spec: dict[str, Any], cs: dict[str, Any], rec: dict[str, Any], variant: str,
-                   case_extra: dict[str, Any] | None = None) -> None:
+                   case_extra: dict[str, Any] | None = None, reordered: bool = False) -> None:
     ref = cs["ref"]["outcome"]
     got = rec["outcome"]
     kind = oracles.classify(spec)
     viol: list[tuple[str, str]] = []
     # statuses / structure
-    if kind == "confluent":
+    if kind == "choice":
+        # after the restart the other member of the group may win (the order in which the members' StartStage messages are
+        # redelivered is not the original one): the multiset of the group's statuses counts
+        base = oracles.compare_outcome(spec, ref, got)
+    elif kind == "confluent":
         base = oracles.compare_exact(ref, got, data=False)
     elif kind == "racy-fail":
         base = oracles.compare_racy_fail(spec, ref, got)
@@ -79,7 +84,7 @@ def judge_recovery(c: Campaign, spec: dict[str, Any], cs: dict[str, Any], rec: d
         if clause == "extra-execution":
             continue  # judged below with the in-flight allowance
         viol.append((clause, detail))
-    if kind != "racy-fail":
+    if kind != "racy-fail" and kind != "choice":
         for k in sorted(set(ref["counts"]) | set(got["counts"])):
             r, g = ref["counts"].get(k, 0), got["counts"].get(k, 0)
             if g > r + allowed_list.count(k):
@@ -87,7 +92,7 @@ def judge_recovery(c: Campaign, spec: dict[str, Any], cs: dict[str, Any], rec: d
     # upstream data every stage saw (set comparison: a legitimate re-execution sees the same data again)
     # early-firing joins included: the recovery drain is FIFO like the reference run, so which upstreams had finished when the
     # join was planned is the same unless a crash lost the join's trigger (it then fires late and sees more)
-    if kind in ("confluent", "early-join") and not any(cl in ("missing-execution", "stage-status", "workflow-status") for cl, _d in viol):
+    if kind in ("confluent", "early-join") and not (kind == "early-join" and reordered) and not any(cl in ("missing-execution", "stage-status", "workflow-status") for cl, _d in viol):
         for k in ref["seen"]:
             a = {json.dumps(x, sort_keys=True) for x in ref["seen"][k]}
             b = {json.dumps(x, sort_keys=True) for x in got["seen"].get(k, [])}
@@ -131,7 +136,10 @@ def judge_recovery(c: Campaign, spec: dict[str, Any], cs: dict[str, Any], rec: d
             c.violation(f"{clause}|{win}", case, detail, sig={"window": win, "kind": kind})
 
 
-def enumerate_spec(c: Campaign, spec: dict[str, Any], double: bool, max_double: int = 0) -> None:
+POST_ORDERS = ([2], [2, 2], [4], [2, 4])
+
+
+def enumerate_spec(c: Campaign, spec: dict[str, Any], double: bool, max_double: int = 0, reorder: bool = False) -> None:
     states = crash_states(spec)
     if not states:
         return
@@ -156,6 +164,13 @@ def enumerate_spec(c: Campaign, spec: dict[str, Any], double: bool, max_double: 
                    [f"feat:{f}" for f in features(spec)] + [f"inflight:{(cs.get('inflight') or {}).get('type', 'none')}", f"variant:{vname}"],
                    sample={"spec": spec["name"], "crash_after_commit": cs["index"], "of": total, "in_flight": (cs.get("inflight") or {}).get("type"),
                            "variant": vname, "recovered_workflow": rec["outcome"]["workflow"], "recovery": rec["recovery"]} if nontrivial and cs["index"] % 17 == 3 else None)
+            if reorder and vname == "before-effect":
+                # the same restart, but what the recovered system has to deliver (redelivered in-flight messages, what the recovery
+                # sweep queued, what was pending) reaches the workers in another order than FIFO
+                for d in POST_ORDERS:
+                    rec_o = recover_from(spec, cs, schedule=Schedule(list(d), 2))
+                    judge_recovery(c, spec, cs, rec_o, f"reordered:{d}", {"post_order": list(d)}, reordered=True)
+                    c.case(("c01o", spec, cs["index"], tuple(d)), started and not finished, ["post-recovery-reordered"])
             if double:
                 inner = rec["inner_states"]
                 step = 1 if max_double <= 0 else max(1, len(inner) // max_double)
@@ -191,7 +206,7 @@ def all_specs() -> dict[str, dict[str, Any]]:
 
 def shard_corpus(prop: str, tier: str, seed: int, name: str, double: bool) -> dict[str, Any]:
     c = Campaign(prop, tier, seed, LEVEL)
-    enumerate_spec(c, all_specs()[name], double)
+    enumerate_spec(c, all_specs()[name], double, reorder=True)
     return c.export()
 
 
@@ -233,6 +248,7 @@ def run(c: Campaign, jobs: int) -> None:
     else:
         args += [(shard_corpus, (c.prop, c.tier, c.seed, name, True)) for name in ("t_pair",)]
     run_shards(c, _dispatch, args, jobs)
+    c.exhaustive_parts.append("every commit point of each corpus workflow recovered under the delivery orders " + str([list(d) for d in POST_ORDERS]) + " besides FIFO")
     c.exhaustive_parts.append("every commit point (x effect absent/present) of the FIFO run of each explored spec; "
                               + ("every pair of successive crashes for 10 corpus specs" if not quick else "every pair of successive crashes for the 2-stage chain t_pair"))
     c.rule = ("case = (spec, crash after commit i of its FIFO run, variant: external effect of the in-flight execution absent/present). Each case is "
@@ -241,12 +257,12 @@ def run(c: Campaign, jobs: int) -> None:
     c.assumptions += [
         "the state after a kill between commits i and i+1 is the bytes of commit i (SQLite atomic commit is trusted, torn writes are not modelled)",
         "restart drops every engine singleton the harness knows of (ConnectionManager, dedup filter, executing-task table, cancellation tokens, event bus/recorder)",
-        "recovery drain is FIFO; reordering after a crash is covered by C02's schedules, not here",
+        "recovery drain is FIFO and, for the corpus workflows, additionally under 4 fixed non-FIFO orders of the first deliveries after the restart (statuses / counts judged; the data an early-firing join saw is only compared for the FIFO drain)",
         "SQLite backend only",
     ]
     for cls in ("feat:jump", "feat:poll", "feat:transient", "feat:terminal-failure", "feat:continue-on-failure", "feat:multi-task",
                 "feat:join-DISC", "feat:join-NOFM", "feat:after-child", "feat:before-child", "feat:onfail-child", "feat:predeclared-child",
-                "variant:after-effect", "double-crash"):
+                "variant:after-effect", "double-crash", "post-recovery-reordered"):
         if c.classes.get(cls, 0) == 0:
             c.harness_error(f"generator starvation: class {cls} never produced")
 
@@ -255,6 +271,10 @@ def regress(c: Campaign, rec: dict[str, Any]) -> None:
     case = rec["case"]
     states = crash_states(case["spec"])
     cs = states[case["crash_commit"]]
+    if case.get("post_order"):
+        r = recover_from(case["spec"], cs, schedule=Schedule(list(case["post_order"]), 2))
+        judge_recovery(c, case["spec"], cs, r, case["variant"], {"post_order": case["post_order"]}, reordered=True)
+        return
     r = recover_from(case["spec"], cs, after_execute=case.get("variant") == "after-effect")
     judge_recovery(c, case["spec"], cs, r, case.get("variant", "before-effect"))
 
